@@ -42,6 +42,7 @@ class Recorder:
                 infos = rpc.get_all_instances_info()
                 o['inst'] = {_nick(c, i['identifier']): i['statename'] for i in infos}
                 o['seen'] = {_nick(c, i['identifier']): i['local_sequence_counter'] for i in infos}
+                o['rem'] = {_nick(c, i['identifier']): i['remote_sequence_counter'] for i in infos}
                 o['tick'] = node.supvisors.listener.counter
                 if self.with_sm:
                     sms = rpc.get_all_instances_state_modes()
